@@ -35,7 +35,13 @@ class Ctx:
                    self.old_ghost, self.old_ghost, self.unfold)
 
     def with_env(self, env):
-        c = Ctx(env, self.heap, self.old_env, self.old_heap, self.facts, self.repo, self.ghost, self.old_ghost,
+        # bindings introduced by the new environment (spec-function parameters, bound variables) are
+        # values and are visible under old() as well
+        old_env = dict(self.old_env)
+        for k, v in env.items():
+            if k not in self.env or self.env[k] is not v:
+                old_env[k] = v
+        c = Ctx(env, self.heap, old_env, self.old_heap, self.facts, self.repo, self.ghost, self.old_ghost,
                 self.unfold)
         return c
 
